@@ -112,6 +112,126 @@ def _renum_block(b, off, boff, dest, target, call_meta):
     return nb
 
 
+def _succ1(t):
+    """the single normal successor of a terminator, or None"""
+    k = t["t"]
+    if k in ("goto", "falseunwind", "falseedge", "call", "drop", "assert"):
+        return t.get("target")
+    return None
+
+
+def _inline_async(body, i, orig, depth_of_block, d):
+    """`f(args).await` where f is a non-pinned async fn: replace the poll loop by the coroutine body of f.
+    Returns False (and changes nothing) when the await does not have the plain desugared shape."""
+    fn_j, co_j = orig
+    blocks = body["blocks"]
+    blk = blocks[i]
+    t = blk["term"]
+    if t["dest"]["p"] or len(t["args"]) != fn_j["arg_count"]:
+        return False
+    # B: into_future(move F)
+    chain = []
+    cur = t["target"]
+    poll_bb = None
+    for _ in range(12):
+        if cur is None or cur >= len(blocks):
+            return False
+        b = blocks[cur]
+        chain.append(cur)
+        tt = b["term"]
+        if tt["t"] == "call" and "const" in tt["func"] and "fn" in tt["func"]["const"] \
+                and short(tt["func"]["const"]["fn"].get("def", "")).endswith("Future::poll"):
+            poll_bb = cur
+            break
+        if tt["t"] == "call":
+            nm = short(tt["func"]["const"]["fn"].get("def", "")) if "const" in tt["func"] and "fn" in tt["func"]["const"] else ""
+            if not nm.endswith(("IntoFuture::into_future", "Pin::<Ptr>::new_unchecked", "Pin::new_unchecked", "get_context")):
+                return False
+        cur = _succ1(tt)
+    if poll_bb is None:
+        return False
+    first = blocks[chain[0]]["term"]
+    if first["t"] != "call" or not short(first["func"]["const"]["fn"].get("def", "")).endswith("IntoFuture::into_future"):
+        return False
+    a0 = first["args"][0]
+    if not ("move" in a0 and a0["move"]["l"] == t["dest"]["l"] and not a0["move"]["p"]):
+        return False
+    pt = blocks[poll_bb]["term"]
+    if pt["dest"]["p"] or pt.get("target") is None:
+        return False
+    sw_bb = pt["target"]
+    sw = blocks[sw_bb]["term"]
+    if sw["t"] != "switch" or len(sw.get("arms", [])) != 2:
+        return False
+    arms = dict((a[0], a[1]) for a in sw["arms"])
+    if 0 not in arms or 1 not in arms:
+        return False
+    ready_bb, pending_bb = arms[0], arms[1]
+    pend = []
+    cur = pending_bb
+    for _ in range(6):
+        if cur is None:
+            return False
+        pend.append(cur)
+        if blocks[cur]["term"]["t"] == "yield":
+            break
+        cur = _succ1(blocks[cur]["term"])
+    else:
+        return False
+    # --- transform
+    off = len(body["locals"])
+    boff = len(blocks)
+    body["locals"].extend(copy.deepcopy(co_j["locals"]))
+    meta = {"loc": t.get("loc", "")}
+    if "x" in t:
+        meta["x"] = t["x"]
+        meta["cs"] = t.get("cs")
+    agg = [s for b in fn_j["blocks"] for s in b["stmts"] if s.get("s") == "assign"][0]
+    rv = copy.deepcopy(agg["rv"])
+    ops = []
+    for o in rv["ops"]:
+        pl = o.get("move") or o.get("copy")
+        k = pl["l"]
+        if not (1 <= k <= len(t["args"])):
+            return False
+        ops.append(t["args"][k - 1])
+    rv["ops"] = ops
+    st = {"s": "assign", "place": {"l": off + 1, "p": []}, "rv": rv}
+    st.update(meta)
+    blk["stmts"].append(st)
+    st = {"s": "assign", "place": {"l": off + 2, "p": []}, "rv": {"k": "use", "op": {"copy": {"l": 2, "p": []}}}}
+    st.update(meta)
+    blk["stmts"].append(st)
+    for dv in co_j["debug"]:
+        if "place" in dv:
+            body["debug"].append({"name": dv["name"], "place": _renum_place(dv["place"], off)})
+    poll_dest = pt["dest"]
+    for cb in co_j["blocks"]:
+        nb = _renum_block(cb, off, boff, {"l": off, "p": []}, None, meta)
+        if cb["term"]["t"] == "return":
+            nb["stmts"].pop()   # the `dest = move ret` written by _renum_block
+            rs = {"s": "assign", "place": poll_dest,
+                  "rv": {"k": "agg", "ak": "adt", "adt": "std::task::Poll", "variant": "Ready", "vidx": 0, "gargs": [],
+                         "fields": ["0"], "ops": [{"move": {"l": off, "p": []}}]}}
+            rs.update(meta)
+            nb["stmts"].append(rs)
+            g = {"t": "goto", "target": ready_bb}
+            g.update(meta)
+            nb["term"] = g
+        blocks.append(nb)
+    for j in range(boff, len(blocks)):
+        depth_of_block[j] = d + 1
+    g = {"t": "goto", "target": boff}
+    g.update(meta)
+    blk["term"] = g
+    for k in chain + [sw_bb] + pend:
+        dead = {"t": "unreachable"}
+        dead.update(meta)
+        blocks[k]["stmts"] = []
+        blocks[k]["term"] = dead
+    return True
+
+
 def inline_crate(crate_j):
     """inline calls to non-pinned helpers inside every body of one crate (in place). Returns number of inlined calls"""
     fns, _ = pinned()
@@ -119,12 +239,22 @@ def inline_crate(crate_j):
         return 0
     by_key = {b["key"]: b for b in crate_j["bodies"]}
     candidates = {}
+    async_candidates = {}
     for b in crate_j["bodies"]:
-        if b["kind"] in ("Fn", "AssocFn") and short(b["name"]) not in fns and len(b["blocks"]) <= MAX_BLOCKS and not _is_async(b):
-            candidates[b["key"]] = b
-    if not candidates:
+        if b["kind"] in ("Fn", "AssocFn") and short(b["name"]) not in fns and len(b["blocks"]) <= MAX_BLOCKS:
+            if not _is_async(b):
+                candidates[b["key"]] = b
+            else:
+                co = by_key.get(b["key"] + "::{closure#0}")
+                st = [s for blk in b["blocks"] for s in blk["stmts"] if s.get("s") == "assign"]
+                if co is not None and len(b["blocks"]) == 1 and len(st) == 1 and b["blocks"][0]["term"]["t"] == "return" \
+                        and len(co["blocks"]) <= MAX_BLOCKS and \
+                        all(("move" in o or "copy" in o) and not (o.get("move") or o.get("copy"))["p"] for o in st[0]["rv"]["ops"]):
+                    async_candidates[b["key"]] = (b, co)
+    if not candidates and not async_candidates:
         return 0
     originals = {k: copy.deepcopy(v) for k, v in candidates.items()}
+    async_originals = {k: (copy.deepcopy(f), copy.deepcopy(c)) for k, (f, c) in async_candidates.items()}
     n = 0
     for body in crate_j["bodies"]:
         if body["kind"] == "Promoted":
@@ -138,7 +268,15 @@ def inline_crate(crate_j):
                 fn = t["func"]["const"]["fn"]
                 ck = fn.get("resolved_key") or fn.get("key")
                 d = depth_of_block.get(i, 0)
-                if ck in originals and ck != body["key"] and d < MAX_DEPTH and t.get("target") is not None:
+                if ck in async_originals and ck != body["key"] and not body["key"].startswith(ck + "::") and d < MAX_DEPTH \
+                        and body.get("coroutine") and t.get("target") is not None:
+                    if _inline_async(body, i, async_originals[ck], depth_of_block, d):
+                        for kk in (ck, ck + "::{closure#0}"):
+                            if by_key.get(kk) is not None:
+                                by_key[kk]["inlined_into_callers"] = True
+                        body.setdefault("inlined", []).append(short(async_originals[ck][0]["name"]))
+                        n += 1
+                elif ck in originals and ck != body["key"] and d < MAX_DEPTH and t.get("target") is not None:
                     callee = originals[ck]
                     if callee["arg_count"] == len(t["args"]):
                         off = len(body["locals"])
